@@ -64,7 +64,9 @@ fn every_message(t: &mut u64, sender: &str, id: u64) -> Vec<Step> {
     push(Op::OwnAccept);
     push(Op::Burn { id });
     push(Op::OwnRenounce);
+    push(Op::MigrateSelf);
     push(Op::Migrate);
+    push(Op::MigrateSelf);
     v
 }
 
@@ -408,6 +410,40 @@ fn scripted(v: Variant) -> Vec<Hist> {
             }
         }
     }
+    // S10: each variant's OWN migrate entry point (same code id): once, twice in a row, between
+    // freezes / metadata updates / mints, from the record as it is and from rewritten records
+    {
+        let mut cw2s: Vec<Option<(String, String)>> = vec![None];
+        if v != Variant::UpdatableMigrated {
+            for ver in version_grid_self() {
+                cw2s.push(Some((own_name(v).to_string(), ver)));
+            }
+        }
+        for cw2 in cw2s {
+            out.push(Hist {
+                setup: Setup { cw2, ..base.clone() },
+                steps: vec![
+                    st(T0 + 1, PUPPET, mint(1, "alice")),
+                    st(T0 + 2, PUPPET, Op::Mint { id: 2, owner: "bob".into(), uri: None }),
+                    st(T0 + 3, "alice", Op::Approve { spender: "carol".into(), id: 1, exp: None }),
+                    st(T0 + 4, "creator", Op::UpdateTokenMd { id: 1, uri: Some(URIS[1].into()) }),
+                    st(T0 + 5, "creator", Op::FreezeTokenMd),
+                    st(T0 + 6, "creator", Op::FreezeInfo),
+                    st(T0 + 7, "alice", Op::MigrateSelf),
+                    st(T0 + 8, "creator", Op::MigrateSelf),
+                    st(T0 + 9, "creator", Op::MigrateSelf),
+                    stf(T0 + 10, "creator", Op::EnableUpdatable, vec![(NATIVE, ENABLE_FEE)]),
+                    st(T0 + 11, "creator", Op::UpdateTokenMd { id: 1, uri: Some(URIS[2].into()) }),
+                    st(T0 + 12, "creator", upd(|u| u.description = Some("after migrate".into()))),
+                    st(T0 + 13, "creator", Op::MigrateSelf),
+                    st(T0 + 14, PUPPET, mint(3, "carol")),
+                    st(T0 + 15, "bob", Op::Burn { id: 2 }),
+                    st(T0 + 16, "carol", Op::Transfer { to: "bob".into(), id: 1 }),
+                    st(T0 + 17, "creator", Op::MigrateSelf),
+                ],
+            });
+        }
+    }
     // S8: update_collection_info field semantics and guards
     {
         let mut steps = vec![];
@@ -456,6 +492,9 @@ fn random_hist(v: Variant, rng: &mut Rng, len: usize) -> Runner {
     if rng.chance(1, 3) && matches!(v, Variant::Base | Variant::Updatable) {
         let n = if v == Variant::Base { *rng.pick(&[NAME_BASE, NAME_BASE_LEGACY]) } else { *rng.pick(&[NAME_UPD, NAME_UPD_LEGACY]) };
         setup.cw2 = Some((n.to_string(), rng.pick(&version_grid()).clone()));
+    }
+    if setup.cw2.is_none() && rng.chance(1, 4) && v != Variant::UpdatableMigrated {
+        setup.cw2 = Some((own_name(v).to_string(), rng.pick(&version_grid_self()).clone()));
     }
     let mut r = Runner::new(&setup);
     if !r.alive() {
@@ -574,7 +613,7 @@ fn random_hist(v: Variant, rng: &mut Rng, len: usize) -> Runner {
                 (s, Op::UpdateTokenMd { id: pick_tok(rng), uri })
             }
             95 => ((if rng.chance(1, 2) { creator.clone() } else { any(rng) }), Op::FreezeTokenMd),
-            96 => ((if rng.chance(2, 3) { "creator".to_string() } else { any(rng) }), Op::Migrate),
+            96 => ((if rng.chance(2, 3) { "creator".to_string() } else { any(rng) }), if rng.chance(1, 2) { Op::Migrate } else { Op::MigrateSelf }),
             _ => {
                 let s = if valid { creator.clone() } else { any(rng) };
                 let amt = *rng.pick(&[ENABLE_FEE - 1, ENABLE_FEE, ENABLE_FEE, ENABLE_FEE + 1]);
@@ -797,7 +836,7 @@ pub fn run(a: &Args) {
         }
     }
     rep.distinct_nontrivial = distinct.len() as u64;
-    rep.rule = "evaluations = instantiations + executed calls, each followed by the full set of queries. Per variant (sg721-base, sg721-updatable fresh and migrated-from-base, sg721-metadata-onchain, sg721-nt): scripted histories for duplicate ids / foreign minters / burn and re-mint, two-step ownership hand-over with expiry at t-1,t,t+1 and renounce, every mutating message from creator/minter/token owner/stranger after a collection-info freeze and on a fresh collection, token-metadata update/freeze/enable with fee-1,fee,fee+1 and wrong coins, approvals and operators with expirations at t-1,t,t+1, send to contract/account, instantiation guards (non-contract sender, funds, description 512/513 bytes incl. multi-byte, URL pool), update_collection_info field semantics, admin migrations to the sg721-updatable code (by stranger/minter/admin) between freeze / enable / update operations over a cw2 grid (current and legacy names x versions 0.15.9, 0.16.0, 2.9.9, 3.0.0, 3.0.9, 3.1.0, 3.1.1, 3.2.1, current-1, current, current+1, next major); then random histories of 20-45 calls, ~75% from the role the call needs. Non-trivial = call (distinct by variant, message, sender, funds, outcome and prior observation) that was not rejected merely because the variant's ExecuteMsg lacks the message.".into();
+    rep.rule = "evaluations = instantiations + executed calls, each followed by the full set of queries. Per variant (sg721-base, sg721-updatable fresh and migrated-from-base, sg721-metadata-onchain, sg721-nt): scripted histories for duplicate ids / foreign minters / burn and re-mint, two-step ownership hand-over with expiry at t-1,t,t+1 and renounce, every mutating message from creator/minter/token owner/stranger after a collection-info freeze and on a fresh collection, token-metadata update/freeze/enable with fee-1,fee,fee+1 and wrong coins, approvals and operators with expirations at t-1,t,t+1, send to contract/account, instantiation guards (non-contract sender, funds, description 512/513 bytes incl. multi-byte, URL pool), update_collection_info field semantics, admin migrations to the sg721-updatable code (by stranger/minter/admin) between freeze / enable / update operations over a cw2 grid (current and legacy names x versions 0.15.9, 0.16.0, 2.9.9, 3.0.0, 3.0.9, 3.1.0, 3.1.1, 3.2.1, current-1, current, current+1, next major); each variant's own migrate entry point (same code id) once / twice in a row between freezes, metadata updates, mints and burns over the own-name x version grid; then random histories of 20-45 calls, ~75% from the role the call needs. Non-trivial = call (distinct by variant, message, sender, funds, outcome and prior observation) that was not rejected merely because the variant's ExecuteMsg lacks the message.".into();
     out.write_cases("C09", "From LP Require Import Collection C09Corr.", "c09_case", "c09_check", &coq_cases, 6, &mut rep);
     out.finish(&rep);
     println!("C09 harness: {} evaluations in {} histories, {} monitor violations", rep.evaluations, coq_cases.len(), nviol);
